@@ -119,6 +119,32 @@ struct abs_record {
 int gv_k0; /* ghost index 1..pocmer_ (forall-introduction) */
 struct Observation *gv_m; /* the observation under test (test_abs_term check) */
 
+/* IEEE operations as TAGGED operations (idiom of units/vyrovnani_tail): gv_fmul(a,b) performs the real IEEE
+   multiplication AND states that its result is the value of the uninterpreted function FMUL at (a,b).  "IEEE
+   multiplication is a function of its operands" is a fact, so the statement excludes no execution; it lets a contract
+   name the product as the TERM FMUL(a,b): the solver then compares OPERANDS instead of multiplier circuits.  Used for
+   visit(Angle*) only, whose value clause FAILS on the tree as found: an SMT back end proves the other visits' value
+   identities at once but does not find this counterexample in 200 s, a SAT back end finds it but cannot prove the
+   identities; on terms SAT does both in seconds.  The tag is bit-exact (+0 / -0 are different operands). */
+double __CPROVER_uninterpreted_fdiv(double, double);
+double __CPROVER_uninterpreted_fmul(double, double);
+#define FDIV(a, b) __CPROVER_uninterpreted_fdiv((a), (b))
+#define FMUL(a, b) __CPROVER_uninterpreted_fmul((a), (b))
+#define SAME_BITS(a, b) (((a) == (b) && __CPROVER_signd(a) == __CPROVER_signd(b)) || ((a) != (a) && (b) != (b)))
+static double gv_fdiv(double a, double b)
+{
+  __CPROVER_assert(b != 0, "floating-point division: the divisor is not zero");
+  double r = a / b;
+  __CPROVER_assume(SAME_BITS(r, FDIV(a, b)));
+  return r;
+}
+static double gv_fmul(double a, double b)
+{
+  double r = a * b;
+  __CPROVER_assume(SAME_BITS(r, FMUL(a, b)));
+  return r;
+}
+
 /* libm sqrt as a symbol */
 double abs_sqrt(double x)
 {
@@ -279,8 +305,9 @@ void gvs_project_equations(struct LocalNetwork *self)
 /* the misclosure of an observation of type T; L = LEN_MM (observed - computed) or LEN_MM_R (computed - observed) */
 #define M_Distance(L, o, F, T, bi, hor, slo) L(VALUE(o), hor)
 #define M_Direction(L, o, F, T, bi, hor, slo) ANG_MM(bi, hor)
-#define M_Angle(L, o, F, T, bi, hor, slo) ANG_MM(bi, GV_MAXD(hor, P.dfs))
-#define IS_M_Angle(m, bi, hor) (((hor) >= P.dfs && MV_SAMEVAL(m, ANG_MM(bi, hor))) || (P.dfs > (hor) && MV_SAMEVAL(m, ANG_MM(bi, P.dfs)))) /* the same, arm by arm */
+#define M_Angle(L, o, F, T, bi, hor, slo) ANG_MM(bi, GV_MAXD(hor, P.dfs)) /* |b| max(arms) / (2000/pi) */
+/* ... the same with the product and the quotient named as terms (see gv_fmul): |(b (x) max(arms)) (/) (2000/pi)| */
+#define IS_M_Angle(m, bi, hor) MV_SAMEVAL(m, __CPROVER_fabs(FDIV(FMUL(bi, GV_MAXD(hor, P.dfs)), K_CC2MM)))
 #define M_H_Diff(L, o, F, T, bi, hor, slo) L(VALUE(o), (T)->z_ - (F)->z_)
 #define M_S_Distance(L, o, F, T, bi, hor, slo) L(VALUE(o), slo)
 #define M_Z_Angle(L, o, F, T, bi, hor, slo) ANG_MM(bi, slo)
@@ -379,6 +406,9 @@ void gvs_project_equations(struct LocalNetwork *self)
 /* ================================================================================================================ */
 //@ contract Vec_at_const
 MV_CONTRACT_Vec_at_const
+//@ entry Vec_at_const
+/* where the real body is inlined (check visit_Angle) the precondition of the contract is asserted here */
+__CPROVER_assert(1 <= n && n <= self->mem.sz, "Vec::operator()(n): 1 <= n <= dim (precondition of MV_CONTRACT_Vec_at_const)");
 //@ end
 
 /* ---- value(): the result of the last check ---------------------------------------------------------------------- */
@@ -646,6 +676,19 @@ static void mk_vis(void)
   gv_v.stan = &gv_F;
   gv_v.cil = &gv_T;
   gv_v.b = &gv_bv;
+#ifdef ABS_SAMPLE
+  /* checks <name>_sample: ONE concrete point (all symbols are constants, the SAT back end evaluates every obligation by
+     constant propagation).  Second line behind the SMT checks: a wrong sign / factor / argument that changes the value
+     at this point is reported at once even where the SMT solver does not find a counterexample in time. */
+  gv_F.x_ = 1; gv_F.y_ = 2; gv_F.z_ = 3; gv_F.bxy_ = 1; gv_F.bz_ = 1;
+  gv_T.x_ = 4; gv_T.y_ = 6; gv_T.z_ = 15; gv_T.bxy_ = 1; gv_T.bz_ = 1;
+  gv_o.value_ = 13.5; gv_o.reduction_dh_ = 0.125;
+  gv_v.d0 = 5; gv_v.tol_abs_ = 1000; gv_v.indm = 1; gv_v.val = 7;
+  __CPROVER_assume(gv_bv.mem.sz == 1);
+  gv_bv.mem.rep[0] = -2500.0;
+  P.sqrt_ret[0] = 5; P.sqrt_ret[1] = 13; P.dfs = 4;
+  G.chk_n = 0; G.vis_n = 0; G.nsqrt = ABS_SAMPLE_NSQRT; G.d0_from = &gv_F; G.d0_to = &gv_T;
+#endif
 }
 #define HARNESS(T)                             \
   void h_visit_##T(void)                       \
